@@ -138,12 +138,15 @@ class Scenario:
         self.real = real                                              # builder of a real cuqi target
         self.calls = []                                               # (point, value) recorded
         self.gcalls = []
+        self.events = None                                            # shared with Script.log: order of queries and uniforms
 
     # recorded wrappers handed to cuqi
     def rec_F(self, x):
         x = arr(x)
         v = self.F(x)
         self.calls.append((x.copy(), v))
+        if self.events is not None:
+            self.events.append(("q", len(self.calls) - 1))
         return v
 
     def rec_G(self, x):
@@ -163,7 +166,7 @@ class Scenario:
         return v
 
 
-def make_scenario(rs, kernel, idx, force_shift=False):
+def make_scenario(rs, kernel, idx, force_shift=False, flat=False):
     """structured, mostly valid targets; NaN / -inf / +inf regions included"""
     dim = int(rs.choice([1, 1, 2, 2, 3, 4]))
     if kernel.endswith("CWMH"):
@@ -171,6 +174,11 @@ def make_scenario(rs, kernel, idx, force_shift=False):
     a = rs.choice([0.5, 1.0, 2.0, 4.0], size=dim)
     mu = rs.randint(-2, 3, size=dim).astype(float)
     fam = rs.choice(["quad", "quartic", "support", "support", "posinf"], p=[0.3, 0.2, 0.25, 0.2, 0.05])
+    if flat:
+        fam = "flat"
+    elif kernel.endswith("CWMH") and rs.rand() < 0.5:
+        fam = "support"      # invalid proposals at components that are not the last of the sweep
+    k0 = int(rs.randint(0, max(1, dim - 1)))   # coordinate carrying the support restriction (never the last one for dim >= 2)
     if force_shift:
         fam = "quad"        # DESIGN §5 #12 (and the analogous shifted random-walk proposal): always exercised
     lo = float(rs.choice([-1.0, -0.5, 0.0]))
@@ -191,15 +199,18 @@ def make_scenario(rs, kernel, idx, force_shift=False):
         g[1:] += -0.5 * x[:-1]
         return g
 
-    if fam == "quad":
+    if fam == "flat":
+        eps_ = float(rs.choice([0.0, 0.0, 1.0 / 64]))
+        F, G = (lambda x: -eps_ * float(np.sum(x ** 2))), (lambda x: -2 * eps_ * x)
+    elif fam == "quad":
         F, G = quad, gquad
     elif fam == "quartic":
         F, G = quartic, gquartic
     elif fam == "support":
         def F(x):
-            if x[0] < lo:
+            if x[k0] < lo:
                 return -math.inf
-            if x[0] > hi:
+            if x[k0] > hi:
                 return math.nan
             return quad(x)
         G = gquad
@@ -273,6 +284,9 @@ class T:
                 "x": [float(v) for v in self.x], "cached_logd": repr(self.logd), "scale": [float(v) for v in self.scale],
                 "u": [float(u) for u in self.us],
                 "proposals": [[float(v) for v in p] for p, _ in self.queries],
+                "prior_draw": None if getattr(self, "xi", None) is None else [float(v) for v in self.xi],
+                "inferred_mechanism": getattr(self, "mech", None),
+                "accept_bits": getattr(self, "acc", None),
                 "values_at_proposals": [repr(float(v)) for _, v in self.queries]}
 
 
@@ -294,19 +308,37 @@ def true_ratio_single(t, xstar):
         lq_bwd = -0.5 * float(np.sum((x - xstar - s * m) ** 2)) / s ** 2
         return fy - fx + lq_bwd - lq_fwd, fx, fy
     if k in ("expPCN", "legPCN"):
-        # x* = a x + b xi, xi ~ N(m, C): q(y|x) = N(y; a x + b m, b² C); a, b inferred
-        b = float(t.scale[0])
+        # x* = a x + lam xi, xi ~ N(m, C): q(y|x) = N(y; a x + lam m, lam² C).  (a, lam) are inferred from
+        # the recorded draw and points, NOT taken from the sampler's attributes.
         xi = t.xi
-        if b == 0:
+        s_ = float(t.scale[0])
+        a = lam = None
+        M = np.stack([x, xi], axis=1)
+        if sc.dim >= 2 and np.linalg.matrix_rank(M) == 2:
+            sol = np.linalg.lstsq(M, xstar, rcond=None)[0]
+            a, lam = float(sol[0]), float(sol[1])
+        else:
+            # one equation, two unknowns (dim 1 / collinear): candidates in order of plausibility
+            i = int(np.argmax(np.abs(xi)))
+            cands = []
+            c_nom = math.sqrt(max(0.0, 1 - s_ * s_))
+            if x[i] != 0:
+                cands.append(((xstar[i] - s_ * xi[i]) / x[i], s_))            # noise factor = scale
+            if xi[i] != 0:
+                cands.append((c_nom, (xstar[i] - c_nom * x[i]) / xi[i]))      # contraction = sqrt(1-scale²)
+            for (ca, cl) in cands:
+                if abs(ca * ca + cl * cl - 1) < 1e-9:
+                    a, lam = float(ca), float(cl); break
+            if a is None and len(cands) == 2:
+                a, lam = float(cands[1][0]), float(cands[1][1])
+            elif a is None and cands:
+                a, lam = float(cands[0][0]), float(cands[0][1])
+        if a is None or lam == 0 or not np.allclose(a * x + lam * xi, xstar, rtol=1e-9, atol=1e-12):
             return None
-        resid = xstar - b * xi
-        nx = float(x @ x)
-        a = float(resid @ x) / nx if nx > 0 else math.sqrt(max(0.0, 1 - b * b))
-        if not np.allclose(a * x + b * xi, xstar, rtol=1e-9, atol=1e-12):
-            return None
+        t.mech = {"a": a, "lambda": lam, "a2+lambda2": a * a + lam * lam}
         m, C = sc.prior_mean, sc.prior_var
-        lq_fwd = -0.5 * float(np.sum((xstar - a * x - b * m) ** 2 / C)) / b ** 2
-        lq_bwd = -0.5 * float(np.sum((x - a * xstar - b * m) ** 2 / C)) / b ** 2
+        lq_fwd = -0.5 * float(np.sum((xstar - a * x - lam * m) ** 2 / C)) / lam ** 2
+        lq_bwd = -0.5 * float(np.sum((x - a * xstar - lam * m) ** 2 / C)) / lam ** 2
         return fy - fx + lq_bwd - lq_fwd, fx, fy
     if k in ("expMALA", "legMALA"):
         # x* = x + c g(x) + sigma z: q(y|x) = N(y; x + c g(x), sigma² I); c inferred from the draw
@@ -393,8 +425,13 @@ class UHook:
             rr = self.ratio_now()
         except Exception:
             rr = None
-        if rr is not None and t.sc.cls != "std" and self.rs.rand() < 0.6:
-            mode = "between"
+        if rr is not None and self.rs.rand() < 0.6 and t.sc.calls and not t.kernel.endswith("CWMH"):
+            # the plain difference (value at proposal - cached value) is not the MH log-ratio of the
+            # mechanism actually realised: look for a uniform between the two thresholds
+            rp = t.sc.calls[-1][1] - t.logd
+            if rp == rp and rr[0] == rr[0] and abs(rp) != math.inf and abs(rr[0]) != math.inf \
+                    and abs(min(0.0, rp) - min(0.0, rr[0])) > 1e-6:
+                mode = "between"
         if mode == "between":
             # search device: a uniform strictly between the true threshold and the threshold of the
             # plain difference (value at proposal - cached value); flips the decision iff they differ
@@ -439,14 +476,20 @@ def build_sampler(cuqi, kernel, sc, scale, x0):
         if kernel.endswith("PCN"):
             orig = lik.logd
             def rec(x, _o=orig):
-                v = _o(x); sc.calls.append((arr(x).copy(), f1(v))); return v
+                v = _o(x); sc.calls.append((arr(x).copy(), f1(v)))
+                if sc.events is not None:
+                    sc.events.append(("q", len(sc.calls) - 1))
+                return v
             lik.logd = rec
             target = post
             sc._prior = prior
         else:
             orig, origg = post.logd, post.gradient
             def rec(x, _o=orig):
-                v = _o(x); sc.calls.append((arr(x).copy(), f1(v))); return v
+                v = _o(x); sc.calls.append((arr(x).copy(), f1(v)))
+                if sc.events is not None:
+                    sc.events.append(("q", len(sc.calls) - 1))
+                return v
             def recg(x, _o=origg):
                 g = _o(x); sc.gcalls.append((arr(x).copy(), arr(g).copy())); return g
             post.logd = rec; post.gradient = recg
@@ -528,6 +571,7 @@ def new_T(kernel, sc, hist, step, x, logd, grad, scale, script, hook):
     t.us, t.draws, t.queries, t.gqueries = [], [], [], []
     t.xi = t.sigma = t.z = None
     sc.calls.clear(); sc.gcalls.clear(); script.log.clear()
+    sc.events = script.log
     if kernel.endswith("PCN"):
         sc._xi.clear()
     hook.t = t
@@ -541,8 +585,11 @@ def run_exp(cuqi, kernel, sc, hist, nsteps, scale, x0, script, hook, out):
         s.initialize()
         if hist == "warmup":
             s.warmup(12, tune_freq=0.25)
-        elif hist == "reload":
-            s.sample(3)
+        elif hist in ("warmup-long", "warmup-reload"):
+            s.warmup(40, tune_freq=0.1)          # 10 tuning updates: on flat targets the uncapped tuning variable passes 1
+        if hist in ("reload", "warmup-reload"):
+            if hist == "reload":
+                s.sample(3)
             state = s.get_state()
             old_post = exp_snapshot(kernel, s)
             sc_calls, sc_g = sc.calls, sc.gcalls
@@ -649,36 +696,57 @@ def oracle(ctx, t, stats):
 
     if k.endswith("CWMH"):
         d = sc.dim
-        if len(t.queries) != d or len(t.us) != d:
+        # align target evaluations and uniforms from the order in which they happened
+        comps = []                       # (query index, uniform or None)
+        for ev in t.draws:
+            if ev[0] == "q":
+                comps.append([ev[1], None])
+            elif ev[0] == "u" and comps and comps[-1][1] is None:
+                comps[-1][1] = ev[1]
+        if len(comps) != d or len(t.acc) != d:
+            stats["cw-shape-unknown"] = stats.get("cw-shape-unknown", 0) + 1
             return fails
         xt = t.x.copy()
         cur = sc.post(xt)
+        point_failed = False
         for j in range(d):
-            qpt, qval = t.queries[j]
-            diff = np.nonzero(qpt != xt)[0]
-            if len(diff) and not (len(diff) == 1 and diff[0] == j):
-                stats["cw-mechanism-unknown"] = stats.get("cw-mechanism-unknown", 0) + 1
-                return fails
-            fy = sc.post(qpt)
-            ell = np_log(t.us[j])
-            r = fy - cur
-            dem = demanded(ell, r, cur, fy)
+            qpt, qval = t.queries[comps[j][0]]
+            u = comps[j][1]
+            # each inner iteration must be an MH step whose proposal differs from the CURRENT state in
+            # coordinate j only (one-coordinate proposal centred at the current coordinate)
+            expect = xt.copy(); expect[j] = qpt[j]
+            if not np.array_equal(qpt, expect, equal_nan=True) and not point_failed:
+                point_failed = True
+                fail("component-point", {"component": j, "evaluated_at": [float(v) for v in expect]},
+                     {"component": j, "evaluated_at": [float(v) for v in qpt]},
+                     f"component {j}: the target was evaluated at a point that differs from the current state in other coordinates "
+                     "than its own (contaminated work vector); the accept test is then not the MH test of a one-coordinate proposal")
+            fy = sc.post(expect)
             a = t.acc[j]
+            if u is None:
+                dem = 0 if (fy != fy or fy == -math.inf) else None      # no uniform drawn: only an invalid proposal may be judged
+                ell = None
+            else:
+                ell = np_log(u)
+                dem = demanded(ell, fy - cur, cur, fy)
             if fy != fy and a == 1:
                 fail("accept-nan", 0, 1, "a component proposal whose target log-density is NaN was accepted")
             elif fy == -math.inf and a == 1:
-                why = "u0" if t.us[j] == 0 else ("from-neginf" if cur == -math.inf else ("from-nan" if cur != cur else "other"))
+                why = "u0" if u == 0 else ("from-neginf" if cur == -math.inf else ("from-nan" if cur != cur else "other"))
                 fail(f"accept-neginf:{why}", 0, 1, "a component proposal whose target log-density is -inf was accepted")
             elif dem is not None and a != dem:
-                fail("decision", dem, a, f"component {j}: accept bit differs from [log u <= min(0, log MH ratio)] (log u={ell!r}, log ratio={r!r})")
+                fail("decision", dem, a, f"component {j}: accept bit differs from [log u <= min(0, log MH ratio)] for the one-coordinate proposal "
+                                         f"(log u={ell!r}, log ratio={fy - cur!r})")
             if dem is not None:
                 stats["decisions"] = stats.get("decisions", 0) + 1
             if a == 1:
-                xt = qpt.copy(); cur = fy
+                xt[j] = qpt[j]; cur = sc.post(xt)
         if not np.array_equal(t.x1, xt):
             fail("frame", [float(v) for v in xt], [float(v) for v in t.x1], "next point is not the current point with exactly the accepted components replaced")
-        elif not (same_float(t.logd1, cur) or close(t.logd1, cur, 1e-9)):
-            fail("cache", repr(cur), repr(t.logd1), "cached log-density after the sweep is not the log-density of the new point")
+        else:
+            c1 = sc.post(t.x1)
+            if not (same_float(t.logd1, c1) or close(t.logd1, c1, 1e-9)):
+                fail("cache", repr(c1), repr(t.logd1), "cached log-density after the sweep is not the log-density of the new point")
         return fails
 
     if not t.queries or len(t.us) != 1:
@@ -726,7 +794,6 @@ def oracle(ctx, t, stats):
 def compare(ctx, t, out, stats):
     """returns list of (field, model, impl) differences"""
     k = t.kernel
-    tol = 0 if t.sc.exact and t.hist in ("fresh", "reload", "plain") else 1e-12
     toks = out.split()
     diffs = []
 
@@ -921,20 +988,27 @@ def run(ctx):
         rs = np.random.RandomState(1000 * ctx.seed + 17 * ki + 3)
         for i in range(n_sc):
             real = (i % 5 == 4)
-            sc = make_real_scenario(cuqi, rs, k, i) if real else make_scenario(rs, k, i, force_shift=(i in (1, 2)))
+            flat = (not real) and i % 10 in (3, 6, 7)
+            sc = make_real_scenario(cuqi, rs, k, i) if real else make_scenario(rs, k, i, force_shift=(i in (1, 2)), flat=flat)
             if k.startswith("exp"):
                 hist = ["fresh", "warmup", "reload", "fresh"][i % 4]
+                if flat:
+                    hist = "warmup-reload" if i % 10 == 7 else "warmup-long"
+                elif i % 10 == 8:
+                    hist = "warmup-long"
             else:
                 hist = ["plain", "adapt", "plain"][i % 3]
             x0 = rs.randint(-4, 5, size=sc.dim) / 2.0
             if getattr(sc, "fam", "") in ("support", "posinf") and rs.rand() < 0.7:
-                x0[0] = 0.5          # mostly start inside the support
+                x0[:] = np.where(np.arange(sc.dim) < max(1, sc.dim - 1), 0.5, x0)          # mostly start inside the support
             if k.endswith("PCN"):
                 scale = float(rs.choice([0.25, 0.5, 0.75, 1.0]))
             elif k.endswith("MALA"):
                 scale = float(rs.choice([0.25, 0.0625, 1.0, 0.5]))
             elif k.endswith("CWMH") and k.startswith("exp") and rs.rand() < 0.5:
-                scale = rs.choice([0.25, 0.5, 1.0, 2.0], size=sc.dim)
+                scale = rs.choice([0.25, 0.5, 1.0, 2.0, 4.0], size=sc.dim)
+            elif k.endswith("CWMH"):
+                scale = float(rs.choice([0.5, 1.0, 2.0, 4.0]))
             else:
                 scale = float(rs.choice([0.25, 0.5, 1.0, 2.0]))
             script = Script(ctx.seed * 7919 + ki * 131 + i, dyadic=not real)
@@ -950,15 +1024,26 @@ def run(ctx):
                 stats["u-" + m] = stats.get("u-" + m, 0) + c
 
     # model side
+    from harness.core import KnownMap
+    open_known = KnownMap([r_ for r_ in ctx.known if r_.get("status", "open") == "open"])
+    pending = []                # (transition, fails of that transition, field, model value, impl value)
+    new_fail_keys = {}          # kernel -> first oracle failure key that is not a listed finding
     lines, idx = [], []
+
+    def note_fails(t, fails):
+        for fk in fails:
+            if fk not in open_known:
+                new_fail_keys.setdefault(t.kernel, fk)
+
     for r in records:
         if r[0] == "T":
             ln = model_line(r[1])
             if ln is None:
                 stats["not-replayable"] = stats.get("not-replayable", 0) + 1
-                ctx.disagree(f"{r[1].kernel}:{r[1].sc.cls}:tie:shape", r[1].desc(), "one proposal, one uniform per (component) step",
-                             {"u": len(r[1].us), "queries": len(r[1].queries)}, "the transition did not consume the draws/evaluations the model expects")
-                oracle(ctx, r[1], stats)
+                fails = oracle(ctx, r[1], stats)
+                note_fails(r[1], fails)
+                pending.append((r[1], fails, "shape", "one proposal, one uniform per (component) step",
+                                {"u": len(r[1].us), "queries": len(r[1].queries)}))
                 continue
             lines.append(ln); idx.append(r[1])
     outs = ctx.lean.drive(lines)
@@ -969,12 +1054,21 @@ def run(ctx):
         accs.setdefault(t.kernel, [0, 0])
         accs[t.kernel][0] += sum(t.acc); accs[t.kernel][1] += len(t.acc)
         fails = oracle(ctx, t, stats)
-        diffs = compare(ctx, t, o, stats)
-        known_model = set()
-        for field, mv, iv in diffs:
-            # attach the disagreement to an oracle failure of this transition when there is one
-            key = fails[0] if fails else f"{t.kernel}:{t.sc.cls}:tie:{field}"
-            ctx.disagree(key, t.desc(), mv, iv, f"model vs implementation: {field}")
+        note_fails(t, fails)
+        for field, mv, iv in compare(ctx, t, o, stats):
+            pending.append((t, fails, field, mv, iv))
+    # a model/implementation difference is reported under the key of a failing input exhibited by the oracle:
+    # first one of the same transition, else one of the same kernel in this run (never a listed finding's key,
+    # which would hide it), else under its own tie key (=> no-failing-input-found)
+    for t, fails, field, mv, iv in pending:
+        own = [fk for fk in fails if fk not in open_known]
+        if own:
+            key = own[0]
+        elif t.kernel in new_fail_keys:
+            key = new_fail_keys[t.kernel]
+        else:
+            key = f"{t.kernel}:{t.sc.cls}:tie:{field}"
+        ctx.disagree(key, t.desc(), mv, iv, f"model vs implementation: {field}")
     # chain continuity (legacy loops) and state reload (experimental)
     for r in records:
         if r[0] == "chain":
